@@ -320,7 +320,7 @@ pub const ELEM_NAMES: &[&str] = &[
 ];
 
 pub const ATTR_NAMES: &[&str] = &[
-    "a", "b", "c", "id", "name", "type", "Type", "self", "xml:lang", "xmlns:h", "xmlns", "h:a", "x:a", "h:b", "Foo",
+    "a", "b", "c", "id", "name", "type", "Type", "self", "xml:lang", "xml:space", "xml:space", "xml:id", "xsi:nil", "xsi:type", "xsi:schemaLocation", "xmlns:xsi", "xmlns:h", "xmlns", "h:a", "x:a", "h:b", "Foo",
     "foo", "FOO", "a-b", "a_b", "a.b", "text", "text_attr", "b_attr", "foo_1", "привет", "value", "xmlns:x", "loop",
     "aпривет", "abcdeé", "é", "日本語", "a日本", "xmlnsé", "xmlns:é", "xml:é", "ÉCOLE", "école",
     "_", "__", "_.", "x:_", "_1", "a__b",
@@ -335,7 +335,7 @@ const TEXTS: &[&str] = &[
 const CDATAS: &[&str] = &["", "x", "<b>not an element</b>", " ", "]]", "&amp;", "a]]b", "-->", "?>", "текст"];
 const COMMENTS: &[&str] = &["", " c ", "<x/>", "<x a='1'>", "- - ", "]]>", "?>", "&", "текст", " <r> "];
 const PIS: &[&str] = &["p", "p d", "php echo '<x/>'; ", "x-y a=\"1\"", "p >", "p <r>"];
-const VALUES: &[&str] = &["", "1", "v", "a b", "&amp;", "&lt;", ">", "x=y", "/>", "текст", " ", "&#10;", "--", "]]>"];
+const VALUES: &[&str] = &["default", "preserve", "true", "false", "0", "", "1", "v", "a b", "&amp;", "&lt;", ">", "x=y", "/>", "текст", " ", "&#10;", "--", "]]>"];
 const DECLS: &[&str] = &[
     "version=\"1.0\"",
     "version=\"1.0\" encoding=\"UTF-8\"",
@@ -784,4 +784,50 @@ pub fn rewrite(rng: &mut Rng, d: &Doc, fired: &mut Vec<&'static str>) -> Doc {
         (d.prolog.clone(), d.epilog.clone())
     };
     Doc { prolog, root, epilog }
+}
+
+/// Near-miss renaming used for warm-up documents: for some parent/child pairs move the first character of the
+/// child's name to the end of the parent's name (`items/id` -> `itemsi/d`), or flip the case of a name.
+pub fn shift_names(rng: &mut Rng, e: &mut Elem) {
+    let first_kid: Option<String> = e.elems().next().map(|c| c.name.clone());
+    if let Some(k) = first_kid {
+        let mut chars = k.chars();
+        if let (Some(c0), true) = (chars.next(), k.chars().count() > 1) {
+            let rest: String = chars.collect();
+            let ok = rest.chars().next().map(|c| c.is_alphabetic() || c == '_').unwrap_or(false);
+            if ok && rng.pct(60) {
+                let old = e.name.clone();
+                e.name.push(c0);
+                let _ = old;
+                for kid in e.kids.iter_mut() {
+                    if let Node::Elem(c) = kid {
+                        if c.name == k {
+                            c.name = rest.clone();
+                        }
+                    }
+                }
+            }
+        }
+    }
+    if rng.pct(20) {
+        e.name = if rng.pct(50) { e.name.to_uppercase() } else { e.name.to_lowercase() };
+    }
+    // attributes: move the owner's last character in front of the attribute name (`item sid` <- `items id`)
+    if rng.pct(30) && e.name.chars().count() > 1 {
+        let last = e.name.chars().last().unwrap();
+        if last.is_alphabetic() {
+            let n: String = e.name.chars().take(e.name.chars().count() - 1).collect();
+            e.name = n;
+            for a in e.attrs.iter_mut() {
+                if !a.name.contains(':') {
+                    a.name = format!("{last}{}", a.name);
+                }
+            }
+        }
+    }
+    for kid in e.kids.iter_mut() {
+        if let Node::Elem(c) = kid {
+            shift_names(rng, c);
+        }
+    }
 }
